@@ -1,16 +1,141 @@
-import SSV.Model.Stream
+import SSV.Proofs.StreamRun
+import SSV.Model.StreamToy
 /-
-C01 — property theorems (work in progress: the codec lemmas come first).
+C01 — Shadowsocks 2022 TCP tunnel delivers the exact byte stream both ways.
+Property theorems only (helper lemmas: SSV/Proofs/Stream*.lean). `C` is any AEAD/KDF/… satisfying
+`AeadOK` (open ∘ seal = id, ciphertext length = plaintext length + tagSize); the `example`s show the
+hypotheses are satisfiable (an explicit transparent AEAD).
+
+The theorems depend on `SSV.Gen.C01` (regenerated from /repo on every run): the constants and the
+facts `writeToFlushesLeftover`, `tunnelFlushesLeftover` (repair of finding F1). With a fact `false`
+the model mirrors the unrepaired code and `stream_roundtrip` no longer checks.
 -/
 namespace SSV.C01
-open SSV SSV.Stream
+open SSV SSV.Stream SSV.Gen.C01
 
-/-- `io.ReadFull` only depends on the concatenation: reading `n > 0` bytes from a wire that has them
-returns exactly the first `n` bytes and leaves the rest. -/
-theorem readFull_append (a b : Bytes) (h : a.length ≠ 0) :
-    readFull a.length (a ++ b) = .ok (a, b) := by
-  simp [readFull, h]
+/-- a transparent AEAD satisfying the hypotheses (non-vacuity witness) -/
+def plainCrypto : Crypto where
+  enc := fun _ _ p => p ++ List.replicate tagSize 0
+  dec := fun _ _ c => some (c.take (c.length - tagSize))
+  kdf := fun psk salt => psk ++ salt
+  eihEnc := fun _ _ b => b
+  eihDec := fun _ _ b => b
+  pskHash := fun psk => psk
+
+theorem plainCrypto_ok : AeadOK plainCrypto :=
+  ⟨by intro k n p; simp [plainCrypto], by intro k n p; simp [plainCrypto]⟩
+
+/-- **stream_roundtrip** (layer 1, every copy path): whatever sequence of `Write` / `ReadFrom` calls
+produced the chunks (any lengths, including 0 and > 0xFFFF), however the transport cut the ciphertext
+into segments (`segs`, only their concatenation matters), and whatever mixture of `Read(n)` (any
+`n ≥ 0`), `WriteTo` and tunnel copy the receiving side runs: no call fails, the calls hand over
+consecutive pieces of exactly the written bytes — in order, each byte once — and a call reports the
+end of the stream only after all of them. -/
+theorem stream_roundtrip (C : Crypto) (hC : AeadOK C) (k : Bytes) (n0 : Nat) (calls : List WCall)
+    (segs : List Bytes)
+    (hseg : segs.flatten = (Writer.emit C ⟨k, n0⟩ (calls.flatMap WCall.chunks)).1.flatten)
+    (ops : List ROp) :
+    (Reader.run C ⟨k, n0, [], segs.flatten⟩ ops).length = ops.length ∧
+    Delivers (calls.map WCall.data).flatten (Reader.run C ⟨k, n0, [], segs.flatten⟩ ops) := by
+  have hs : Sync C ⟨k, n0, [], segs.flatten⟩ (calls.flatMap WCall.chunks) :=
+    ⟨by rw [hseg, (emit_flatten C ⟨k, n0⟩ _).1], calls_valid calls⟩
+  have := run_ok hC ops _ _ hs
+  simpa [pending, calls_flatten] using this
+
+example : ∃ C, AeadOK C := ⟨plainCrypto, plainCrypto_ok⟩
+
+/-- the delivered bytes are a prefix of the written bytes (nothing invented, nothing reordered,
+nothing duplicated) … -/
+theorem delivered_is_prefix (C : Crypto) (hC : AeadOK C) (k : Bytes) (n0 : Nat) (calls : List WCall) (ops : List ROp) :
+    ∃ rest, (calls.map WCall.data).flatten =
+      ((Reader.run C ⟨k, n0, [], (Writer.emit C ⟨k, n0⟩ (calls.flatMap WCall.chunks)).1.flatten⟩ ops).map ROut.bytes).flatten ++ rest := by
+  have := (stream_roundtrip C hC k n0 calls [(Writer.emit C ⟨k, n0⟩ (calls.flatMap WCall.chunks)).1.flatten] (by simp) ops).2
+  simpa using this.prefix
+
+/-- … and when a call reports the end of the stream (a `Read` returning EOF, a `WriteTo` / tunnel
+copy returning nil), everything written has been delivered by then, and nothing comes after. -/
+theorem eof_only_at_end (C : Crypto) (hC : AeadOK C) (k : Bytes) (n0 : Nat) (calls : List WCall) (ops : List ROp)
+    (pre : List ROut) (o : ROut) (post : List ROut)
+    (he : Reader.run C ⟨k, n0, [], (Writer.emit C ⟨k, n0⟩ (calls.flatMap WCall.chunks)).1.flatten⟩ ops = pre ++ o :: post)
+    (hend : o.sawEnd = true) :
+    (calls.map WCall.data).flatten = (pre.map ROut.bytes).flatten ++ o.bytes ∧ (post.map ROut.bytes).flatten = [] := by
+  have := (stream_roundtrip C hC k n0 calls [(Writer.emit C ⟨k, n0⟩ (calls.flatMap WCall.chunks)).1.flatten] (by simp) ops).2
+  exact Delivers.complete (by simpa using this) pre o post he hend
+
+/-- progress: on an in-sync reader a `Read` into a non-empty buffer returns at least one byte while
+bytes are pending and EOF when none are; `WriteTo` and the tunnel copy always run to the end. -/
+theorem reader_progress (C : Crypto) (hC : AeadOK C) (r : Reader) (cs : List Bytes) (hs : Sync C r cs) :
+    (∀ n, 0 < n → pending r cs ≠ [] → (r.step C (.read n)).1.bytes ≠ []) ∧
+    (∀ n, pending r cs = [] → (r.step C (.read n)).1 = .fail .eof) ∧
+    (r.step C .writeTo).1 = .copied (if r.left.length = 0 then cs else r.left :: cs) none ∧
+    (r.step C .tunnel).1 = .copied (if r.left.length = 0 then cs else r.left :: cs) none := by
+  refine ⟨fun n hn hp => ?_, fun n hp => ?_, ?_, ?_⟩
+  · obtain ⟨_, h⟩ := step_ok hC r cs hs (.read n); exact h.progress n rfl hn hp
+  · obtain ⟨_, h⟩ := step_ok hC r cs hs (.read n); exact h.readEnd n rfl hp
+  all_goals
+    have hfuel : cs.length < r.wire.length + 1 := by
+      rw [hs.wire]; have := encodeChunks_length_ge hC r.key r.nonce cs; omega
+    have hf1 : writeToFlushesLeftover = true := by decide
+    have hf2 : tunnelFlushesLeftover = true := by decide
+    by_cases hl : r.left.length = 0
+    · simp [Reader.step, Reader.writeTo, Reader.tunnel, hf1, hf2, hl, copyLoop_sync hC cs _ r [] hs hfuel]
+    · have hs' : Sync C { r with left := [] } cs := ⟨hs.wire, hs.valid⟩
+      simp [Reader.step, Reader.writeTo, Reader.tunnel, hf1, hf2, hl, copyLoop_sync hC cs _ _ [r.left] hs' hfuel]
+
+/-- **nonce_lockstep**: after any schedule the reader is still in sync with the chunks it has not
+consumed, under the same key, and its counter is the writer's counter at that chunk boundary
+(the writer ends at `n0 + 2·#chunks`; both advance by two per chunk). -/
+theorem nonce_lockstep (C : Crypto) (hC : AeadOK C) (k : Bytes) (n0 : Nat) (calls : List WCall) (ops : List ROp) :
+    let w := Writer.emit C ⟨k, n0⟩ (calls.flatMap WCall.chunks)
+    let r := Reader.after C ⟨k, n0, [], w.1.flatten⟩ ops
+    ∃ cs', Sync C r cs' ∧ r.key = w.2.key ∧ r.nonce + 2 * cs'.length = w.2.nonce := by
+  have hs : Sync C ⟨k, n0, [], (Writer.emit C ⟨k, n0⟩ (calls.flatMap WCall.chunks)).1.flatten⟩ (calls.flatMap WCall.chunks) :=
+    ⟨by rw [(emit_flatten C ⟨k, n0⟩ _).1], calls_valid calls⟩
+  obtain ⟨cs', h1, h2, h3⟩ := after_sync hC ops _ _ hs
+  refine ⟨cs', h1, ?_, ?_⟩
+  · rw [h2, (emit_flatten C ⟨k, n0⟩ _).2.1]
+  · rw [h3, (emit_flatten C ⟨k, n0⟩ _).2.1]
+
+/-- the code's 12-byte little-endian `increment` is the successor the model uses, up to 2^96 -/
+theorem increment_is_successor (b : Bytes) (h : b.length = nonceSize) :
+    leVal (incrementLE b) = (leVal b + 1) % 2 ^ 96 ∧ (incrementLE b).length = nonceSize := by
+  refine ⟨?_, by rw [incrementLE_length, h]⟩
+  rw [leVal_incrementLE, h]
+  rfl
+
+/-- **segmentation**: `io.ReadFull` over a transport that delivers arbitrary segments (empty ones
+included) returns what it returns on the concatenation, and leaves the concatenation's rest. -/
+theorem segmentation_irrelevant (segs : List Bytes) (n : Nat) (hn : n ≠ 0) :
+    match readFull n segs.flatten with
+    | .ok (bs, rest) => ∃ segs', readFullSeg n 0 segs = .ok (bs, segs') ∧ segs'.flatten = rest
+    | .error e => readFullSeg n 0 segs = .error e := by
+  have h := readFullSeg_flat segs n 0
+  unfold readFull
+  rw [if_neg hn]
+  by_cases hlen : segs.flatten.length < n
+  · have e := h.2 hlen
+    by_cases h0 : segs.flatten.length = 0
+    · rw [if_pos h0]; rw [e, if_pos ⟨rfl, h0⟩]
+    · rw [if_neg h0, if_pos hlen]; rw [e, if_neg (fun hh => h0 hh.2)]
+  · obtain ⟨segs', e, hf⟩ := h.1 (by omega)
+    have h0 : segs.flatten.length ≠ 0 := by omega
+    rw [if_neg h0, if_neg hlen]
+    exact ⟨segs', e, hf⟩
+
+/-- the splitting loops of `Write` / `ReadFrom` lose nothing and respect the chunk limit -/
+theorem writer_chunks_valid (calls : List WCall) :
+    ValidChunks (calls.flatMap WCall.chunks) ∧
+    (calls.flatMap WCall.chunks).flatten = (calls.map WCall.data).flatten :=
+  ⟨calls_valid calls, calls_flatten calls⟩
 
 end SSV.C01
 
-#print axioms SSV.C01.readFull_append
+#print axioms SSV.C01.plainCrypto_ok
+#print axioms SSV.C01.stream_roundtrip
+#print axioms SSV.C01.delivered_is_prefix
+#print axioms SSV.C01.eof_only_at_end
+#print axioms SSV.C01.reader_progress
+#print axioms SSV.C01.nonce_lockstep
+#print axioms SSV.C01.increment_is_successor
+#print axioms SSV.C01.segmentation_irrelevant
+#print axioms SSV.C01.writer_chunks_valid
